@@ -52,6 +52,9 @@ def gen_scenario(rng, prof=None):
         lines.append(f"net delays {a} {b}")
     elif rng.random() < 0.5:
         lines.append(f"net delay {rng.choice([0, 1, 3])}")
+    if rng.random() < 0.2:
+        # the delay settings are changed again: the later call decides (fixed after random, random after fixed)
+        lines.append(rng.choice([f"net delay {rng.choice([0, 2])}", f"net delays {rng.choice([0, 1])} {rng.choice([2, 4])}"]))
     for k in ("drop", "dupl", "corrupt"):
         if rng.random() < prof["p_fault"]:
             lines.append(f"net {k} {rng.choice([fbits(0.5), fbits(0.25), '2', '0', fbits(0.9)])}")
@@ -81,8 +84,10 @@ def gen_scenario(rng, prof=None):
             ops.append(f"for {rng.choice([0, 1, 2, 3, 7, fbits(0.75)])}")
         elif r < 0.63 and alive:
             ops.append(f"until_local {rng.choice(alive)[0]}")
-        elif r < 0.68 and alive:
+        elif r < 0.66 and alive:
             ops.append(f"until_local_max {rng.choice(alive)[0]} {rng.randint(0, 4)}")
+        elif r < 0.68 and alive:
+            ops.append(f"until_local_timeout {rng.choice(alive)[0]} {rng.choice([0, 1, 2, 3, 6, fbits(0.75)])}")
         elif r < 0.74 and alive:
             ops.append(f"read {rng.choice(alive)[0]}")
         elif r < 0.74 + prof["p_crash"] * 0.5 and len(nodes) > 1:
@@ -107,7 +112,9 @@ def gen_scenario(rng, prof=None):
             ops.append("net " + rng.choice([f"drop_in {a}", f"pass_in {a}", f"drop_out {a}", f"pass_out {a}",
                                             f"disconnect {a}", f"connect {a}", f"disable {a} {b}", f"enable {a} {b}",
                                             f"partition {a} / {b}", "reset",
-                                            f"drop {rng.choice(['0', '2', fbits(0.5)])}", f"dupl {rng.choice(['0', fbits(0.5)])}"]))
+                                            f"drop {rng.choice(['0', '2', fbits(0.5)])}", f"dupl {rng.choice(['0', fbits(0.5)])}",
+                                            f"corrupt {rng.choice(['0', fbits(0.5)])}", f"delay {rng.choice([0, 1, 2])}",
+                                            f"delays {rng.choice([0, 1])} {rng.choice([2, 3, 5])}"]))
         elif r < 0.97:
             ops.append("step")
         else:
@@ -137,6 +144,10 @@ def gen_link_matrix(rng):
             lines.append("net " + rng.choice([f"disable {a} {b}", f"enable {a} {b}", f"enable {b} {a}", f"disable {b} {a}",
                                              f"partition {a} / {b}", f"drop_in {a}", f"pass_in {a}", f"drop_out {a}", f"pass_out {a}",
                                              f"disconnect {a}", f"connect {a}", "reset"]))
+        if rng.random() < 0.3:
+            # a node goes down and comes back with its processes: the link controls in force are not touched by that
+            n = rng.choice(nodes)
+            lines += [f"crash {n}", f"recover {n}"] + [f"proc {p} {n}" for p in procs if loc[p] == n]
         for p in procs:
             lines.append(f"local {p} m0 =go")
         lines.append("steps 40")
